@@ -174,11 +174,19 @@ def split_logs(text):
     return out, (idx if cur is not None else None)
 
 
-def run_model(exe, progfile, snap=True):
-    cmd = [exe] + ([] if snap else ['--no-snap']) + [progfile]
+def run_model(exe, progfile, snap=True, inv=True):
+    """-> (logs, rc, inv_failures): the model also evaluates the Coq invariant checker (Inv.v) after
+    every top-level command; those lines are split off the log."""
+    cmd = [exe] + ([] if snap else ['--no-snap']) + (['--inv'] if inv else []) + [progfile]
     rc, out = sh(cmd, check=False, stack=True, timeout=900)
     logs, partial = split_logs(out)
-    return logs, rc
+    invf = {}
+    for k, lines in logs.items():
+        bad = [l for l in lines if l.startswith('INV ')]
+        if bad:
+            invf[k] = bad
+            logs[k] = [l for l in lines if not l.startswith('INV ')]
+    return logs, rc, invf
 
 
 def run_harness(exe, progfile, nprogs, snap=True):
